@@ -28,7 +28,10 @@ const M = ringlab.M
 
 var points = []string{"join.requested", "join.neighbours", "stab.read", "stab.done", "fix.done", "join.finish.pred", "join.finish.self", "join.finish.succ",
 	// the joiner's neighbours while they take the joiner in (partially repaired fingers)
-	"pred:stab.read", "pred:stab.done", "pred:fix.done"}
+	"pred:stab.read", "pred:stab.done", "pred:fix.done",
+	// the joiner's successor has dropped its predecessor: the join is refused (retryably) and the
+	// lookups are issued right after the joiner has given up
+	"refused:join.failed"}
 
 type jcase struct {
 	Name  string `json:"name"`
@@ -67,7 +70,11 @@ func runCase(c jcase, rep *batch.Report) batch.CaseResult {
 	}
 	// fix-finger runs rarely in the background, so that the finger tables stay as the protocol
 	// steps left them while the probes run (the steps themselves repair fingers synchronously)
-	lab := ringlab.New(ringlab.Options{Mode: mode, Seed: c.Seed, FixFinger: 250 * time.Millisecond, Stabilize: 150 * time.Millisecond, PredecessorCheck: 150 * time.Millisecond})
+	stab := 150 * time.Millisecond
+	if strings.HasPrefix(c.Point, "refused:") {
+		stab = 3 * time.Millisecond // the refused joiner retries with a back-off that starts at this interval
+	}
+	lab := ringlab.New(ringlab.Options{Mode: mode, Seed: c.Seed, FixFinger: 250 * time.Millisecond, Stabilize: stab, PredecessorCheck: 150 * time.Millisecond})
 	defer lab.Close()
 	rng := rand.New(rand.NewSource(c.Seed))
 	used := map[uint64]bool{}
@@ -142,6 +149,10 @@ func runCase(c jcase, rep *batch.Report) batch.CaseResult {
 	srt := sortU(append([]uint64{}, ids...))
 	succOfJoiner := ringlab.OwnerOf(srt, joiner.ID)
 	predOfJoiner := ringlab.ExpectFor(srt, succOfJoiner).Pred
+	if who == "refused" {
+		lab.Member(succOfJoiner).Node.VerifClearPredecessor()
+		rep.Count("joins_into_a_successor_without_predecessor", 1)
+	}
 	if c.NilPred > 0 {
 		var cand []*ringlab.Member
 		for _, m := range members {
@@ -171,7 +182,7 @@ func runCase(c jcase, rep *batch.Report) batch.CaseResult {
 	}
 	lab.On(hookPoint, func(point string, node uint64) {
 		switch who {
-		case "joiner":
+		case "joiner", "refused":
 			if node != joiner.ID {
 				return
 			}
@@ -256,12 +267,61 @@ func runCase(c jcase, rep *batch.Report) batch.CaseResult {
 		select {
 		case <-done:
 		case <-time.After(60 * time.Second):
+			// lookups take microseconds; after a minute the goroutine dump decides: a lookup blocked
+			// acquiring a lock of a node will never return
+			buf := make([]byte, 8<<20)
+			buf = buf[:runtime.Stack(buf, true)]
+			blocked := ""
+			for _, g := range strings.Split(string(buf), "\n\n") {
+				if strings.Contains(g, "chord.(*LocalNode).FindSuccessor") && (strings.Contains(g, "sync.(*RWMutex).") || strings.Contains(g, "sync.(*Mutex).")) && (strings.Contains(g, "[sync.RWMutex.") || strings.Contains(g, "[sync.Mutex.") || strings.Contains(g, "[semacquire")) {
+					blocked = g
+					break
+				}
+			}
 			vmu.Lock()
-			res.Inconclusive = "watchdog: probes did not return within 60 s at " + point
+			if blocked != "" {
+				if len(blocked) > 3000 {
+					blocked = blocked[:3000]
+				}
+				viol = append(viol, batch.Viol{Key: "lookup-blocked-for-good:" + point, What: fmt.Sprintf("lookups issued while node %d was at %s of its join did not return within 60 s: FindSuccessor is blocked acquiring a lock of a node and nothing will release it", joiner.ID, point), Witness: map[string]any{"case": c, "ring": ids, "joiner": joiner.ID, "blocked_goroutine": blocked}})
+				lab.Abandon()
+			} else {
+				res.Inconclusive = "watchdog: probes did not return within 60 s at " + point
+			}
 			vmu.Unlock()
 		}
 	})
-	jerr := joiner.Join(members[rng.Intn(len(members))])
+	jch := make(chan error, 1)
+	via := members[rng.Intn(len(members))]
+	go func() { jch <- joiner.Join(via) }()
+	var jerr error
+	select {
+	case jerr = <-jch:
+	case <-time.After(150 * time.Second):
+		// the join (a handful of requests, retried a few times) has not come back: a request blocked
+		// acquiring a lock of a node will never be answered
+		buf := make([]byte, 8<<20)
+		buf = buf[:runtime.Stack(buf, true)]
+		blocked := ""
+		for _, g := range strings.Split(string(buf), "\n\n") {
+			if (strings.Contains(g, "chord.(*LocalNode).RequestToJoin") || strings.Contains(g, "chord.(*LocalNode).FindSuccessor")) && (strings.Contains(g, "sync.(*RWMutex).") || strings.Contains(g, "sync.(*Mutex).")) && (strings.Contains(g, "[sync.RWMutex.") || strings.Contains(g, "[sync.Mutex.") || strings.Contains(g, "[semacquire")) {
+				blocked = g
+				break
+			}
+		}
+		lab.ClearCallbacks()
+		if blocked == "" {
+			res.Inconclusive = "watchdog: the join did not return within 150 s and no request is blocked on a lock of a node"
+			return res
+		}
+		if len(blocked) > 3000 {
+			blocked = blocked[:3000]
+		}
+		lab.Abandon()
+		res.Violations = append(res.Violations, batch.Viol{Key: "request-blocked-for-good:" + c.Point, What: fmt.Sprintf("the join of node %d (point %s) did not return within 150 s: a lookup or join request is blocked acquiring a lock of a node and nothing will release it", joiner.ID, c.Point), Witness: map[string]any{"case": c, "ring": ids, "joiner": joiner.ID, "blocked_goroutine": blocked}})
+		res.Sig = fmt.Sprintf("%s/n%d/%s/netv=%v/blocked", c.Point, c.N, c.Class, c.NetV)
+		return res
+	}
 	lab.ClearCallbacks()
 	rep.Count("probes", probes)
 	rep.Count("probe_errors", errs)
